@@ -59,7 +59,9 @@ theorem same_pump (fuel : Nat) (s : St) : Same s (pump fuel s) := by
           · exact Same.trans' (ih _) (by constructor <;> rfl)
           · split
             · exact Same.trans' (ih _) (by constructor <;> rfl)
-            · exact Same.rfl' s
+            · split
+              · exact Same.trans' (ih _) (by constructor <;> rfl)
+              · exact Same.rfl' s
       · split
         · exact Same.rfl' s
         · split
